@@ -19,7 +19,9 @@ var c01Cfg = ref.CmdCfg{UnixEvasion: "[q]*", UnixSuffix: `\s`, UnixNoSpace: "n",
 
 func c01Tree() core.Tree {
 	return core.Tree{"regex-assembly/toolchain.yaml": c01Yaml, "regex-assembly/include/": "", "regex-assembly/exclude/": "",
-		"regex-assembly/include/incd.ra": c01Files["incd"]}
+		"regex-assembly/include/incd.ra": c01Files["incd"],
+		// a file of the same name in the exclude directory must not shadow the include file
+		"regex-assembly/exclude/incd.ra": "shadow\n"}
 }
 
 // c01Files: include files of the structural stratum (the file has a definition of its own with the name the programs use)
